@@ -151,6 +151,9 @@ def variants(rng, prog, thorough):
             yield p2, hidden, f"S={'+'.join(S)}/rin={rin}/rout={rout}/ib={ib}/db={db}/sel={sel}/depth{depth}{sib}/name={gname}"
 
 
+OPTION_NAMES = ["select", "max_iterations", "entrypoint", "on_missing", "error_handling", "max_concurrency", "on_internal_override"]
+
+
 def make_pairs(tier, rng):
     thorough = tier == "thorough"
     bases = []
@@ -172,6 +175,18 @@ def make_pairs(tier, rng):
         bnd = {b for b, _ in prog["bound"]}
         # some provided values are None (identity nodes pass it on: a legitimately None-valued output)
         prov = [[p, "~none" if rng.random() < 0.2 else f"in.{p}"] for p in sorted(used - outs) if p not in bnd and (p not in dpar or rng.random() < 0.5)]
+        ext = sorted(used - outs)
+        if ext and rng.random() < 0.25:
+            # an input that happens to be NAMED like an option of run() (legal: inputs travel in the values dict)
+            old_name, new_name = rng.choice(ext), rng.choice(OPTION_NAMES)
+            if new_name not in used and new_name not in outs:
+                for n in prog["nodes"]:
+                    n["inputs"] = [new_name if p == old_name else p for p in n["inputs"]]
+                    n["pmap"] = [[new_name if c == old_name else c, o] for c, o in n["pmap"]]
+                    n["defaults"] = [new_name if p == old_name else p for p in n["defaults"]]
+                prog["bound"] = [[new_name if b == old_name else b, v] for b, v in prog["bound"]]
+                prov = [[new_name if p == old_name else p, v] for p, v in prov]
+                dpar = {new_name if p == old_name else p for p in dpar}
         for dp in sorted(dpar):
             if rng.random() < 0.3:
                 # the shared default is ONE object that compares by identity only (def f(p=OBJ), def g(p=OBJ))
